@@ -303,7 +303,7 @@ def classify(w):
     if w.get("lane") and w.get("killed_at") == "mh_sequences" and kinds <= {"acknowledged-flags-lost"}:
         # killed between the truncation of .mh_sequences and its rewrite (or between two writes of it)
         return "C11-kill-inside-mh-sequences-rewrite-loses-flags"
-    if infl == "rename_inbox" and kinds <= {"acknowledged-flags-lost"} and not w.get("deliver_while_down"):
+    if infl == "rename_inbox" and kinds <= {"acknowledged-flags-lost"}:
         return "C11-kill-inside-rename-inbox-loses-flags-of-moved-messages"
     if (w.get("kind") == "revealed-uid-denotes-other-message" and w.get("all") and set(w["all"]) == {"revealed-uid-denotes-other-message"} and w.get("deliver_while_down")
             and "now lateDelivery" in (w.get("detail") or "") and (w.get("inflight") or {}).get("kind") in ("expunge", "move", "rename_inbox", "delete", "close")):
